@@ -126,6 +126,18 @@ pub struct Source {
     pub tree: Tree,
 }
 
+/// programs with sibling-tuple patterns get a source with one very wide node (where tree-sitter has many matches in
+/// progress at once), sized so that the run stays within the model's reach
+pub fn wide_source_for(program: &Program) -> Option<Source> {
+    if !program.features.iter().any(|f| *f == "sibling-tuples") {
+        return None;
+    }
+    let k = if program.text.contains("@t3") { 0 } else if program.text.contains("@p2") { 1 } else { 2 };
+    let src = python::WIDE[k].to_string();
+    let tree = parse_python(&src);
+    Some(Source { src, tree })
+}
+
 pub fn gen_source(r: &mut Rng, small: bool, faulty: bool) -> Source {
     let base = if small { python::gen_small_source(r) } else { python::gen_source(r) };
     let src = if faulty { python::inject_faults(r, &base, 1) } else { base };
